@@ -4,8 +4,8 @@
    extracted-model correspondence of harness/props/c17.py on every run. *)
 From Coq Require Import ZArith List Bool Lia.
 Import ListNotations.
-From Urwid Require Import PyBase PyList AttrFlow AttrFlowBasics AttrFlowMarkup AttrFlowLayout AttrFlowMaps
-  AttrFlowSgr AttrFlowPalette.
+From Urwid Require Import PyBase PyList AttrFlow AttrFlowBasics AttrFlowMarkup AttrFlowLayout AttrFlowClip
+  AttrFlowMaps AttrFlowSgr AttrFlowPalette.
 Open Scope Z_scope.
 
 (* ================= clause 1a: markup =================
@@ -74,6 +74,46 @@ Proof. vm_compute. reflexivity. Qed.
 Example so_next_to_multibyte :
   apply_text_layout false [Chr 2 1 false; Chr 0 0 true] [(Some 1, 1); (Some 2, 1)] [[SText 1 0 2]] 1
   = Ok [[(Some 1, 2)]].
+Proof. vm_compute. reflexivity. Qed.
+
+(* ================= clause 1c: clipping a rendered row =================
+   TextCanvas.content(trim_left, cols) -> trim_text_attr_cs: what every partially shown canvas
+   goes through (CompositeCanvas.pad_trim_left_right with negative values, Overlay, Padding and
+   Columns clipping).  A row is its displayed characters (bytes >= 1, 1 or 2 columns), each with
+   the attribute all its bytes carry.  For EVERY such row and EVERY window 0 <= sc < ec <= width:
+   the row splits as P ++ M ++ R at the byte offsets calc_trim_text returns; M is shown with its
+   own attributes; pad_left = 1 exactly when the cut runs through the double-width last
+   character of P, and the blank that replaces it carries the attribute of THAT character
+   (last_attr P); likewise pad_right and the first character of R. *)
+Theorem clip_keeps_attr :
+  forall row attrs sc ec,
+    row_wf row -> nonneg attrs -> expand attrs = rbytes row -> 0 <= sc -> sc < ec -> ec <= wd row ->
+    clip_result row sc ec (expand (trim_attr (map fst row) attrs sc ec)).
+Proof. exact clip_keeps_attr_lemma. Qed.
+Print Assumptions clip_keeps_attr.
+
+(* read per screen column: the clipped row is the bytes of some characters [shown] whose
+   columns carry exactly the attributes of columns sc .. ec-1 of the unclipped row; nothing
+   moves onto a neighbouring cell *)
+Theorem clip_columns_unchanged :
+  forall row attrs sc ec,
+    row_wf row -> nonneg attrs -> expand attrs = rbytes row -> 0 <= sc -> sc < ec -> ec <= wd row ->
+    exists shown : crow,
+      rbytes shown = expand (trim_attr (map fst row) attrs sc ec) /\
+      colattrs shown = sub (colattrs row) sc ec.
+Proof.
+  intros row attrs sc ec Hwf Hn He H0 H1 H2.
+  apply (clip_columns row sc ec); try assumption. now apply clip_keeps_attr.
+Qed.
+Print Assumptions clip_columns_unchanged.
+
+(* 'x' tagged 1, a wide 3-byte character tagged 1, 'y','z' tagged 2, one blank: cut through the
+   wide character on the left (columns 2..6) and on the right (columns 0..2) *)
+Example clip_somewhere :
+  let cs := [RC 1 1; RC 3 2; RC 1 1; RC 1 1; RC 1 1] in
+  let attrs := [(Some 1, 4); (Some 2, 2); (None, 1)] in
+  (calc_trim_text cs 2 6, trim_attr cs attrs 2 6, calc_trim_text cs 0 2, trim_attr cs attrs 0 2)
+  = ((4, 7, 1, 0), [(Some 1, 1); (Some 2, 2); (None, 1)], (0, 1, 0, 1), [(Some 1, 2)]).
 Proof. vm_compute. reflexivity. Qed.
 
 (* ================= clause 2: attribute maps ================= *)
